@@ -84,4 +84,18 @@ theorem checkpoint_kill_recovers (cfg : Cfg) (w m : Bytes) (f j : Nat)
   rw [hlastEq, hidem]
   simp [hok]
 
+/-- non-vacuity of `replay_idempotent` and `checkpoint_kill_recovers` on the same log -/
+example : replay C05.exCfg 0 C05.exLog (replayAux C05.exCfg 0 2 C05.exLog 0 true C05.exMain).main = replay C05.exCfg 0 C05.exLog C05.exMain :=
+  replay_idempotent C05.exCfg 0 C05.exLog C05.exMain 2
+    (by intro p r h; rw [C05.exLog_walk] at h; simp at h; rcases h with ⟨_, rfl⟩ | ⟨_, rfl⟩ | ⟨_, rfl⟩ <;> simp)
+    (by decide)
+
+example : recover C05.exCfg 1 C05.exLog (replayAux C05.exCfg 0 2 C05.exLog 0 true C05.exMain).main
+    = (.ok, (replay C05.exCfg 0 C05.exLog C05.exMain).main, []) :=
+  checkpoint_kill_recovers C05.exCfg C05.exLog C05.exMain 36 2 (by decide) (C05.segClosedB_sound _ (by decide))
+    (by intro p h; rw [C05.exLog_walk] at h; simp at h)
+    (by rw [C05.exLog_walk]; simp) (by decide)
+    (by intro p r h; rw [C05.exLog_walk] at h; simp at h; rcases h with ⟨_, rfl⟩ | ⟨_, rfl⟩ | ⟨_, rfl⟩ <;> simp)
+    (by decide)
+
 end IwModel.C04
